@@ -26,6 +26,12 @@
 //                  address invoked (no location buffer), joined by '+', '-' if none
 //             dl   the same dispatch with a location buffer: <id>@<hex loc the leaf saw>+...
 //                  #<d.matches>#<hex loc afterwards>
+//             (d / dl carry the arguments of the port's FIRST admitted type string)
+//             da   per reported pair: the same two dispatches for every FURTHER alternative of the port's
+//                  argument specification: <types>!<d part>~<dl part> joined by '|', '-' if there is none
+//             nd   per entry of the case's nm= field (<hexaddr>:<types or ->;... addresses the walk did NOT
+//                  report): <names of the leaves reached without buffer>~<with buffer>#<d.matches>
+//                  (hex names joined by '+', '-' if none)
 #include "hcommon.h"
 #include <rtosc/ports.h>
 #include <rtosc/port-sugar.h>
@@ -290,6 +296,19 @@ struct Rec : RtData {
     void broadcast(const char *) override {}
 };
 
+// an OSC message to addr whose arguments have the given type tags (values: zeros / empty strings)
+static std::vector<uint8_t> message(const std::string &addr, const std::string &types)
+{
+    char msg[2048];
+    memset(msg, 0, sizeof(msg));
+    std::vector<rtosc_arg_t> av(types.size() + 1);
+    memset(av.data(), 0, av.size() * sizeof(rtosc_arg_t));
+    for(size_t a = 0; a < types.size(); ++a)
+        if(types[a] == 's' || types[a] == 'S') av[a].s = "";
+    size_t len = rtosc_amessage(msg, sizeof(msg), addr.c_str(), types.c_str(), av.data());
+    return std::vector<uint8_t>(msg, msg + len);
+}
+
 static std::string cstr_of(const std::string &h)
 {
     auto b = unhex(h);
@@ -398,25 +417,22 @@ int main()
         o << " buf=" << hex(g_buf, strlen(g_buf)) << " z=" << (zeros_ok ? 1 : 0) << " d=";
         // the real dispatch of every reported address (only meaningful for a walk that started at the root)
         if(walked.empty()) o << "-";
-        std::vector<std::string> dls;
+        std::vector<std::string> dls, das;
         static N0 fresh;
         init(fresh);
         for(size_t k = 0; k < walked.size(); ++k) {
             if(k) o << ";";
             std::string rel = walked[k].addr.size() >= pre.size() ? "/" + walked[k].addr.substr(pre.size()) : walked[k].addr;
-            char msg[2048];
-            memset(msg, 0, sizeof(msg));
-            // arguments of the port's first admitted type string
-            std::string types;
+            // every alternative of the port's argument specification, the first one for d / dl
+            std::vector<std::string> alts(1);
             if(const char *c = strchr(walked[k].p->name, ':'))
-                for(++c; *c && *c != ':'; ++c) types.push_back(*c);
-            std::vector<rtosc_arg_t> av(types.size() + 1);
-            memset(av.data(), 0, av.size() * sizeof(rtosc_arg_t));
-            for(size_t a = 0; a < types.size(); ++a)
-                if(types[a] == 's' || types[a] == 'S') av[a].s = "";
-            size_t len = rtosc_amessage(msg, sizeof(msg), rel.c_str(), types.c_str(), av.data());
-            ExactBuf mb(std::vector<uint8_t>(msg, msg + len));
+                for(++c; *c; ++c) { if(*c == ':') alts.emplace_back(); else alts.back().push_back(*c); }
+            std::ostringstream da;
+          for(size_t alt = 0; alt < alts.size(); ++alt) {
+            const std::string &types = alts[alt];
+            ExactBuf mb(message(rel, types));
             std::string dl_part;
+            if(alt) da << (alt > 1 ? "|" : "") << types << "!";
             for(int with_loc = 0; with_loc < 2; ++with_loc) {
                 Rec d(with_loc != 0);
                 d.obj = &fresh;
@@ -433,15 +449,48 @@ int main()
                 if(with_loc) {
                     part << "#" << d.matches << "#" << hex(d.loc, strlen(d.loc));
                     dl_part = part.str();
-                } else o << part.str();
+                    if(alt) da << "~" << dl_part;
+                } else if(alt) da << part.str();
+                else o << part.str();
             }
-            dls.push_back(dl_part);
+            if(!alt) dls.push_back(dl_part);
+          }
+            das.push_back(alts.size() > 1 ? da.str() : std::string("-"));
         }
         // the same dispatches with a location buffer (hashed / linear lookup with loc):
         //   <id>@<hexloc seen by the leaf>+...#<matches>#<hexloc afterwards>
         o << " dl=";
         if(dls.empty()) o << "-";
         for(size_t k = 0; k < dls.size(); ++k) o << (k ? ";" : "") << dls[k];
+        o << " da=";
+        if(das.empty()) o << "-";
+        for(size_t k = 0; k < das.size(); ++k) o << (k ? ";" : "") << das[k];
+        // addresses the walk did not report: which leaves answer to them
+        o << " nd=";
+        std::string nm;
+        for(size_t q = 9; q < f.size(); ++q) if(f[q].compare(0, 3, "nm=") == 0) nm = f[q].substr(3);
+        if(nm.empty() || nm == "-") o << "-";
+        else {
+            bool firstnm = true;
+            for(auto &e : split(nm, ';')) {
+                auto at = split(e, ':');
+                if(at.size() != 2) continue;
+                ExactBuf mb(message(cstr_of(at[0]), at[1] == "-" ? std::string() : at[1]));
+                if(!firstnm) o << ";";
+                firstnm = false;
+                for(int with_loc = 0; with_loc < 2; ++with_loc) {
+                    Rec d(with_loc != 0);
+                    d.obj = &fresh;
+                    reached.clear();
+                    reached_loc.clear();
+                    N0::ports.dispatch((const char *)mb.p, d, true);
+                    if(reached.empty()) o << "-";
+                    for(size_t r = 0; r < reached.size(); ++r)
+                        o << (r ? "+" : "") << hex(reached[r]->name, strlen(reached[r]->name));
+                    if(with_loc) o << "#" << d.matches; else o << "~";
+                }
+            }
+        }
         puts(o.str().c_str());
         free(g_buf);
     }
